@@ -56,7 +56,7 @@ func vfSameFingerprint(s *Snapshot, fp *vfFingerprint, when string) {
 // obtained; nothing it references is released while it is open; after it is
 // closed every file segment no longer in the root is released exactly once.
 //
-// vf:harness property=C04 cases=nseg:1..2;dp:1;nu:0..1;nd:0..1|nseg:1;dp:2;nu:0..1;nd:0..1 cases.thorough=nseg:1..2;dp:1..2;nu:0..2;nd:0..2|nseg:3;dp:1;nu:0..1;nd:0..1 goinline=1 chanslack=8 maxpaths=600000
+// vf:harness property=C04 cases=nseg:1..2;dp:1;nu:0..1;nd:0..1|nseg:1;dp:2;nu:0..1;nd:0..1 goinline=1 chanslack=8 maxpaths=600000
 // vf:bounds arbitrary valid root of nseg segments of dp docs (file-backed or in memory, arbitrary deletions); a batch of nu documents and nd deletes with arbitrary ids; then a merge of all segments of the then-current root; then a persist swap of the merged segment
 // vf:assume steps are atomic with respect to the reader (the introducer holds rootLock for the swap); schedules inside a step are outside (see C15)
 func VF_C04_ReaderFrozenAcrossSteps(nseg int, dp int, nu int, nd int) {
